@@ -106,6 +106,8 @@ pub struct Opts {
   pub known: Vec<(u32, String)>,
   pub conformance_stride: usize,
   pub keep_samples: usize,
+  /// guard against bookkeeping that grows without bound: BFS levels beyond this are not expanded (reported as incomplete)
+  pub max_depth: u32,
 }
 
 #[derive(Default)]
@@ -125,6 +127,7 @@ pub struct LayoutResult {
   pub rest_structurally_distinct: usize,
   pub samples: Vec<Value>,
   pub panic: Option<(Vec<Inp>, String)>,
+  pub depth_capped: bool,
 }
 
 struct LayoutInfo {
@@ -253,6 +256,7 @@ pub fn explore(layout: &Layout, alphabet: &[KeyCode], opts: &Opts) -> LayoutResu
   };
 
   'bfs: while let Some(si) = queue.pop_front() {
+    if depth_of[si as usize] >= opts.max_depth { complete = false; res.depth_capped = true; continue; }
     let s = states[si as usize].clone();
     let mut nontrivial = false;
     for ai in 0..ninp {
@@ -676,7 +680,8 @@ pub fn explore(layout: &Layout, alphabet: &[KeyCode], opts: &Opts) -> LayoutResu
     if opts.stop_prop != 0 && viols.iter().any(|v| v.prop == opts.stop_prop && !v.sig.map(|sg| opts.known.iter().any(|(p, ks)| *p == v.prop && ks == sg)).unwrap_or(false)) {
       stopped = true; complete = false; break 'bfs;
     }
-    if !complete { break 'bfs; }
+    if !complete && !res.depth_capped { break 'bfs; }
+    if states.len() >= opts.max_states { break 'bfs; }
   }
 
   res.states = states.len();
